@@ -33,6 +33,9 @@ func runC09(r *Report, tier string) {
 	// aliasing of the input or of an earlier decode (C19's rules; without
 	// them "untouched" does not mean "unchanged")
 	runC19(r, tier)
+	// every use of the (shared) protected bytes sees them as they were
+	r.rule("R01.5", "(shared with C01) the ToBeSigned builders write no memory that existed before the call.")
+	checkBuilderPurity(r, "R01.5")
 }
 
 // checkSignMessageOrder: the COSE_Sign encoder appends the encoding of
